@@ -1905,7 +1905,7 @@ def heap_iter_run(w, label, o, tspec, templates):
 def heap_start(r):
     from . import heapsim
     if r.random() < 0.35:
-        w, kinds, prefix = heapsim.make_world(r, True)
+        w, kinds, prefix = heapsim.make_world(r, True, string_subclasses=False)   # the classes are part of C13's mirror: see make_heap_world
         classes = ["Comment" if k == "c" else "NavigableString" for k in kinds]
         interesting = [("many", PROP_MAIN)] * len(kinds)
         for o in w.objs.values():
@@ -1929,7 +1929,7 @@ def stream_heap(ctx, n_hist):
         ops = list(prefix)
         stats = Counter()
         for s_ in range(r.choice((2, 4, 6, 9, 12))):
-            op = heapsim.gen_op(r, w, stats)
+            op = heapsim.gen_op(r, w, stats, string_objects=False)   # C13's mirror tracks texts and classes; `se` copies them
             if op is None:
                 break
             st = w.apply(op)
